@@ -232,6 +232,23 @@ def _refine_size(a, o):
     return len(a.allocations) + k * (2 ** max(o[2], 0) - 1)
 
 
+BIG_LIMIT_S = 900
+
+
+def _big_size(a, o):
+    """upper bound of the cells after the operation (large decimal cases)"""
+    n = len(a.allocations)
+    if o[0] == "refine":
+        k = sum(1 for x in a.allocations if not x.rect.fixed and len(x.alloc) > 0 and all(v <= thr_arg(o[1]) for v in x.alloc.values()))
+        return n + k * (2 ** max(o[2], 0) - 1)
+    if o[0] == "uniform":
+        md = max(x.depth for x in a.allocations)
+        return sum(2 ** (md - x.depth) for x in a.allocations)
+    xs = {round(v, 9) for x in a.allocations for v in (x.rect.bounding_box.ll.x, x.rect.bounding_box.ur.x)}
+    ys = {round(v, 9) for x in a.allocations for v in (x.rect.bounding_box.ll.y, x.rect.bounding_box.ur.y)}
+    return (len(xs) - 1) * (len(ys) - 1) + n
+
+
 def loop_obs(a, t, ints, spec):
     """the refine-while-needed loop of the callers, at most spec[1] rounds of refine(t, spec[0]):
     [[cells before the round, cells after it], ...] and whether the loop had stopped"""
@@ -279,15 +296,19 @@ def run_impl(case):
         obs["refine_changes"] = ch
         if case.get("loop"):
             obs["loop"] = [loop_obs(a, t, ii, case["loop"]) for t in case["ths"]]
+        big = case.get("big")      # the number of cells a result may have (default: small, the overlap check is quadratic)
         for o in case["ops"]:
             md = max(x.depth for x in a.allocations)
-            if o[0] == "refine" and _refine_size(a, o) > 300 or len(a.allocations) > 150 or \
+            if big:
+                if _big_size(a, o) > big:
+                    break
+            elif o[0] == "refine" and _refine_size(a, o) > 300 or len(a.allocations) > 150 or \
                     o[0] == "uniform" and sum(2 ** (md - x.depth) for x in a.allocations) > 200:
                 break       # keep the quadratic overlap check of the constructor affordable
             before = alloc_obs(a)
             try:
                 if o[0] == "refine":
-                    with time_limit(REFINE_LIMIT_S):
+                    with time_limit(BIG_LIMIT_S if big else REFINE_LIMIT_S):
                         b = a.refine(thr_arg(o[1], ii), o[2])
                 elif o[0] == "uniform":
                     b = a.uniform_refinement_depth()
@@ -455,6 +476,8 @@ def shrink(case):
     if len(case["ops"]) > 1:
         yield dict(case, ops=case["ops"][:-1])
         yield dict(case, ops=case["ops"][1:])
+    if case.get("big"):
+        return      # a large result is the point of the case (and every attempt costs the quadratic overlap check)
     for i in range(len(cells)):
         if len(cells) > 1:
             yield dict(case, cells=cells[:i] + cells[i + 1:])
